@@ -255,9 +255,13 @@ func (r *Registry) structSort(named types.Type, st *types.Struct) Sort {
 	r.structOrder = append(r.structOrder, so)
 	for i := 0; i < st.NumFields(); i++ {
 		f := st.Field(i)
+		acc := "f:" + key + "." + f.Name()
+		if f.Name() == "_" {
+			acc += fmt.Sprintf("#%d", i)
+		}
 		info.Fields = append(info.Fields, FieldInfo{
 			Name:     f.Name(),
-			Accessor: quote("f:" + key + "." + f.Name()),
+			Accessor: quote(acc),
 			Sort:     r.SortOf(f.Type()),
 			Type:     f.Type(),
 			Embedded: f.Embedded(),
